@@ -295,6 +295,27 @@ sweep_harness!(gc_sweep_blocked_by_unmarked_module, true, 3);
 #[cfg(kani)]
 #[kani::proof]
 #[kani::unwind(22)]
+fn gc_sweep_blocked_mid_table() {
+  // a sweep pass suspended in the middle of the table must also wait while a module is still to be marked:
+  // strings of that module (or interned for it since) are live although unmarked
+  let kinds = [Kind::Temp(false), Kind::Temp(false), Kind::Perm];
+  let mut heap = mk_heap(&kinds, 1, true);
+  // the work unit is concrete: with a symbolic one an implementation that does sweep here costs CBMC more than
+  // ten minutes (measured), and the harness would time out instead of failing
+  heap.sweep(2);
+  assert!(kind_of(&heap, 0) == Kind::Temp(false));
+  assert!(kind_of(&heap, 1) == Kind::Temp(false));
+  assert!(kind_of(&heap, 2) == Kind::Perm);
+  assert!(heap.interned_string.get(S[0]) == Some(&0));
+  assert!(heap.interned_string.get(S[1]) == Some(&1));
+  assert!(heap.sweep_index == 1);
+  kani::cover!(true);
+  std::mem::forget(heap);
+}
+
+#[cfg(kani)]
+#[kani::proof]
+#[kani::unwind(22)]
 fn gc_sweep_resumes_at_index() {
   // second slice of an incremental sweep: starts where the previous one stopped
   let kinds = [Kind::Temp(false), Kind::Temp(false)];
